@@ -2,6 +2,8 @@ import Driver.Proto
 import Driver.ProtoSQ
 import TinyFlux.Model.Codec
 import TinyFlux.Model.IOSteps
+import TinyFlux.Spec.Types
+import TinyFlux.Generated.Validators
 import TinyFlux.Model.DB
 /-! Line protocol → the executable model of the implementation (incl. the generated definitions). -/
 open TinyFlux TinyFlux.Spec TinyFlux.Proto TinyFlux.Model
@@ -90,6 +92,24 @@ def codecLine (sx : Sexp) : String :=
     r.getD "bad-op"
   | _ => "bad-op"
 
+def pyTypeOfName : String → Option Generated.PyType
+  | "none" => some .none | "bool" => some .bool | "int" => some .int | "float" => some .float
+  | "str" => some .str | "bytes" => some .bytes | "list" => some .list | "dict" => some .dict
+  | "datetime" => some .datetime | "other" => some .other | _ => none
+
+/-- the generated acceptance predicate of a slot -/
+def acceptLine (sl ty : String) : String :=
+  match pyTypeOfName ty with
+  | none => "bad-op"
+  | some t =>
+    let r := match sl with
+      | "time" => some (Generated.acceptTime t) | "measurement" => some (Generated.acceptMeasurement t)
+      | "tag_key" => some (Generated.acceptTagKey t) | "tag_value" => some (Generated.acceptTagValue t)
+      | "field_key" => some (Generated.acceptFieldKey t) | "field_value" => some (Generated.acceptFieldValue t)
+      | "tags" => some (Generated.acceptMapping t) | "fields" => some (Generated.acceptMapping t)
+      | _ => none
+    match r with | some true => "accept" | some false => "reject" | none => "bad-op"
+
 def mkCfg (storage : String) (auto : String) : Cfg :=
   { autoIndex := auto == "auto", norm := if storage == "csv" then id else id }
 
@@ -113,6 +133,7 @@ def modelLine (s : State) (line : String) : State × String :=
                 (if s.cfg.autoIndex && !s.storage.isEmpty then ["P.seek0", "P.read"] else [])))
         | _ => (s, "bad-op")
     | .list (.atom "codec" :: _) => (s, codecLine sx)
+    | .list [.atom "validate", .atom sl, .atom ty] => (s, acceptLine sl ty)
     | .list [.atom "eval", q, pt] =>
       match parseQuery q, parsePoint pt with
       | some q, some (some p) =>
